@@ -50,6 +50,16 @@
     loop of `probe_hash_table` (3204–3209, 3228, 3260–3304), but `execute` left the generic table EMPTY
     because the vectorized one exists (1212–1218) and built no i64 table (1181–1202): no probe row
     finds any candidate.  Semi returns nothing, Anti returns every left row.
+  * `semiAntiEmptyTable` — the same empty generic table reached with > 1000 probe rows: `probe_semi_anti_parallel`
+    serves candidates from the vectorized table only for a single BIGINT key whose residual compiled to one
+    column-to-column comparison (`use_vht`, 2202–2206); otherwise it tries `build_i64_hash_table` with the PROBE
+    key expression over the BUILD batches (2211–2218: the column does not exist there → no table) and falls back
+    to `hash_table.get` on the empty generic table (2306–2311).  The switch has no size gate; the driver turns it
+    on only where this path is taken.
+  * `compiledFilterRawNulls` — `CompiledFilter::evaluate` (1915–2010; the residual of filtered Semi/Anti probes served
+    from the vectorized table) reads `arr.value(row)` without consulting the validity bitmap: a NULL operand is
+    compared as its raw slot value instead of making the residual not TRUE.  `Cfg.residualRaw` is what that code
+    computes (the driver supplies it: the residual over the rows with NULL cells read as 0).
 -/
 import IQE.Spec.Query
 namespace IQE.Engine.HashJoin
@@ -62,6 +72,8 @@ structure Dev where
   semiStopAtFirstPass : Bool := false
   chainNewestFirst : Bool := false
   smallProbeEmptyTable : Bool := false
+  semiAntiEmptyTable : Bool := false
+  compiledFilterRawNulls : Bool := false
 deriving Repr, Inhabited, DecidableEq
 
 /-- the join's static configuration -/
@@ -72,6 +84,9 @@ structure Cfg where
   rkeys : List Nat
   /-- residual ON predicate θ on (left row, right row): TRUE or not TRUE -/
   residual : Row → Row → Bool := fun _ _ => true
+  /-- what `CompiledFilter::evaluate` computes for θ (NULL operands read as raw slot values); only used under
+      `Dev.compiledFilterRawNulls` -/
+  residualRaw : Row → Row → Bool := residual
   /-- arities of the two inputs (used for NULL extension, as the output schema is in Rust) -/
   lw : Nat
   rw : Nat
@@ -156,7 +171,8 @@ structure Hit where
 
 def probeRow (dev : Dev) (jt : JoinType) (cfg : Cfg) (bl : Bool) (build : Table) (tbl : HashTable) (p : Row) : Hit :=
   let c := candidates dev cfg bl tbl p
-  let kept := c.filter (passes cfg bl build p)
+  let cfgE : Cfg := if dev.compiledFilterRawNulls && isSemiAnti jt then { cfg with residual := cfg.residualRaw } else cfg
+  let kept := c.filter (passes cfgE bl build p)
   { row := p
     kept := kept
     tracked :=
@@ -221,7 +237,8 @@ def smallProbeLimit : Nat := 1000
 def run (dev : Dev) (jt : JoinType) (cfg : Cfg) (bl : Bool) (build : Table) (parts : List (List Table)) : Table :=
   let parts := if isSemiAnti jt then [parts.flatten] else parts
   let tbl : HashTable :=
-    if dev.smallProbeEmptyTable && isSemiAnti jt && decide (parts.flatten.flatten.length ≤ smallProbeLimit) then []
+    if (dev.semiAntiEmptyTable && isSemiAnti jt)
+        || (dev.smallProbeEmptyTable && isSemiAnti jt && decide (parts.flatten.flatten.length ≤ smallProbeLimit)) then []
     else buildTable dev (buildCols cfg bl) build
   let r := probeAll dev jt cfg bl build tbl parts
   r.1 ++ buildEmit jt cfg bl build r.2
